@@ -110,6 +110,35 @@ theorem policy_no_attempts_no_retry (cfg : RCfg) (t0 : Nat) (ops : List POp) (s 
   rw [this] at h
   omega
 
+/-- Fresh start: an in-range *first* response (`ID = SequenceID`) is always answered with a retry
+    header when at least one attempt is configured — whatever happened to the sequence id before. -/
+theorem policy_first_response_retried (cfg : RCfg) (s : PState) (seq : Key) (status : Int)
+    (hr : inRange cfg status = true) (hA : 1 ≤ cfg.attempts) :
+    ∃ n, (presp cfg s seq true status).2 = .retry n := by
+  unfold presp
+  have hA' : ¬ cfg.attempts < 1 := by omega
+  cases hg : cacheGet s seq with
+  | some e =>
+    by_cases hx : e.left - 1 < 1
+    · exact ⟨e.next, by simp [hr, hx]⟩
+    · exact ⟨e.next, by simp [hr, hx]⟩
+  | none =>
+    by_cases hx : cfg.attempts - 1 < 1
+    · exact ⟨cfg.cooldown, by simp [hr, hA', hx]⟩
+    · exact ⟨cfg.cooldown, by simp [hr, hA', hx]⟩
+
+/-- ... and when the sequence is forgotten (exhausted, ended by an out-of-range response, expired)
+    the first response of its new life gets the full set again: the initial cool-down, and
+    `attempts - 1` attempts left in the stored state. -/
+theorem policy_fresh_start_after_forgotten (cfg : RCfg) (s : PState) (seq : Key) (status : Int)
+    (hr : inRange cfg status = true) (hg : cacheGet s seq = none) (hA : 2 ≤ cfg.attempts) :
+    (presp cfg s seq true status).2 = .retry cfg.cooldown ∧
+    ∃ e, lookup seq (presp cfg s seq true status).1.cache = some e ∧ e.left = cfg.attempts - 1 := by
+  unfold presp
+  have hA' : ¬ cfg.attempts < 1 := by omega
+  have hx : ¬ cfg.attempts - 1 < 1 := by omega
+  simp [hr, hg, hA', hx, lookup_insert_same]
+
 /-- A response outside the retry conditions is answered NoOp and the sequence's state is deleted. -/
 theorem policy_out_of_range_ends (cfg : RCfg) (s : PState) (seq : Key) (first : Bool) (status : Int)
     (h : inRange cfg status = false) :
@@ -181,6 +210,13 @@ example :
 /-- policy, attempts = 0 (former F17a witness): the first in-range response is answered NoOp. -/
 example : (prun ⟨0, 0, 1, [(500, 599)]⟩ (PState.init 0) [.resp "s1" true 500]).map (·.out) = [.noop] := by
   decide
+
+/-- policy: a sequence id re-used by a new logical call right after exhaustion starts afresh. -/
+example :
+    (prun ⟨2, 0, 1, [(500, 599)]⟩ (PState.init 0)
+      [.resp "a" true 500, .resp "a" false 500, .resp "a" true 500, .resp "a" false 500,
+       .resp "a" false 500]).map (·.out)
+      = [.retry 0, .retry 0, .retry 0, .retry 0, .noop] := by decide
 
 /-- policy_exhaustion_deletes / policy_non_first_without_state_noop: hypotheses reachable. -/
 example : cacheGet (presp ⟨2, 0, 1, [(500, 599)]⟩ (PState.init 0) "a" true 500).1 "a"
